@@ -18,7 +18,7 @@ func init() {
 		Overrides: map[string]string{
 			"(" + goosePkg + ".TranslationConfig).TranslatePackages": cmdGoosePkg + ".verifStubTranslatePackages",
 		},
-		Custom:  commandEndToEnd,
+		Custom: commandEndToEnd,
 		Entries: []Entry{
 			{PkgPath: cmdGoosePkg, Func: "verifC17Translate", Opt: big, Replay: "model"},
 			{PkgPath: cmdGoosePkg, Func: "verifC17PatternError", Opt: big, Replay: "model"},
